@@ -42,6 +42,29 @@ PROPERTIES = {
         assumptions=[_KERNEL],
         not_decided=['"promptly" is the kernel\'s'],
     ),
+    'C18': dict(
+        level='proof',
+        explanation='split: ownership (each one-shot iterator consumed by exactly one of tee/map/compress), stream '
+                    'denotations sel/rej as prefix-recursive spec functions, inductive lemma '
+                    'compress(X, map(not_, C)) = rej(X, C) (base + step), callable mapped exactly once over the source, '
+                    'nothing pulled before return; exhaust consumes everything and returns None',
+        assumptions=['stub denotations of itertools.tee / compress, map, operator.not_, collections.deque(maxlen=0) '
+                     '(conformance-tested): lazy, pull their source at most once per index',
+                     'truthiness of a user value is a function of the value'],
+        not_decided=[],
+    ),
+    'C19': dict(
+        level='proof',
+        explanation='parse_pair against the spec function model_pair for ONE ARBITRARY item (string or pair), any '
+                    'separator of length >= 1, any parser raising anything; parse_to_dict = dict(map(parse_pair, '
+                    'items.items() if mapping else items)); default parser is the object ast.literal_eval; no '
+                    'eval/exec/compile/__import__ reachable',
+        assumptions=['str.split/rsplit/partition/find and slicing stubs (z3 string theory, conformance-tested)',
+                     'the parser is a pure function of its text', 'items are strings or 2-sequences',
+                     'ast.literal_eval builds only literals (stdlib)', 'dict()/map() apply the function to every '
+                     'element in order, last pair wins'],
+        not_decided=[],
+    ),
 }
 
 
@@ -53,6 +76,8 @@ def replay_for(prop, obligation):
         out.append('%s -m scenarios.filelock_ops --quick' % VPY)
         if prop in ('C02', 'C13'):
             out.append('%s -m scenarios.filelock_procs --quick' % VPY)
+    if prop in ('C18', 'C19'):
+        out.append('%s -m scenarios.pure_props %s --quick' % (VPY, prop))
     return out
 
 
@@ -63,4 +88,6 @@ def standin_for(prop, tier):
         return ['%s -m scenarios.filelock_ops %s' % (VPY, q)]
     if prop in ('C02', 'C13'):
         return ['%s -m scenarios.filelock_ops %s' % (VPY, q), '%s -m scenarios.filelock_procs %s' % (VPY, q)]
+    if prop in ('C18', 'C19'):
+        return ['%s -m scenarios.pure_props %s %s' % (VPY, prop, q)]
     return []
